@@ -11,15 +11,7 @@ import (
 	"github.com/gogo/protobuf/proto"
 )
 
-var c09Init bool
-
-func c09Setup() {
-	if !c09Init {
-		common.Init(0, "verif.ini", "mainnet")
-		InitSerialzation()
-		c09Init = true
-	}
-}
+func c09Setup() { vtSetup() }
 
 // optional fields of the wire message: present or absent, chosen symbolically
 func c09OptBytes(name string, n int) []byte {
